@@ -254,6 +254,11 @@ func (r *Run) execute() *Run {
 			}()
 		}
 	}
+	for i, ep := range []string{"c", "s"} {
+		if cfg.SendLag[i] > 0 {
+			r.Net.SetSendLag(ep, cfg.SendLag[i])
+		}
+	}
 	if cfg.OnReady != nil {
 		wg.Add(1)
 		go func() {
